@@ -50,7 +50,13 @@ ParseEv(ev) ==
             /\ Chk(ev.res[1].where = ps.end /\ ev.res[4].where = ps.end, "reader entry point must consume exactly the extent of one value")
      ELSE IF isExt /\ ev.label = "ext"
        THEN /\ Chk(\A i \in 1..3 : okVal(ev.res[i], pe.v), "default mode does not give a documented extension its documented meaning")
-            /\ Chk(\A i \in 4..6 : rejected(ev.res[i]), "strict mode accepts a documented extension")
+            /\ Chk(\A i \in 5..6 : rejected(ev.res[i]), "strict mode accepts a documented extension")
+            \* the READER entry point stops right after one value: when the extension lies entirely behind the value
+            \* (a trailing comment), the strict reader never sees it and rightly returns the value
+            /\ Chk(rejected(ev.res[4])
+                   \/ LET pp == ParseDoc(SubSeq(body, 1, pe.end), FALSE) IN
+                      pp.ok /\ NoDupKeys(pp.v) /\ okVal(ev.res[4], pp.v) /\ ev.res[4].where = pe.end,
+                   "strict mode (reader entry point) accepts a documented extension inside the value")
      ELSE TRUE
 
 TStep(ev) ==
